@@ -984,7 +984,7 @@ def run_series(case, f0, tmp, obs, fail):
     flags, sent, last = [], [], {}
     with h5py.File(path, "w") as h:
         g = h.create_group("field")
-        ds = f0._h5_save_structure(g, (T, *n, nv))
+        ds = core.private(f0, "_h5_save_structure")(g, (T, *n, nv))
         if tuple(ds.shape) != (T, *n, nv) or ds.dtype != f0.array.dtype:
             fail(f"_h5_save_structure created dataset {ds.dtype}{tuple(ds.shape)} for data_shape {(T, *n, nv)} and array dtype {f0.array.dtype}")
         for w in case["writes"]:
@@ -993,7 +993,8 @@ def run_series(case, f0, tmp, obs, fail):
             a = make_array(wr, (*n, wnv), w["dtype"], special=w.get("special"))
             fw = df.Field(f0.mesh, nvdim=wnv, value=a, dtype=DTYPES[w["dtype"]])
             sent.append(dict(t=w["t"], data=darr_json(fw.array)))
-            res = _try(lambda: fw._h5_save_data(ds, w["t"]))
+            save_data = core.private(fw, "_h5_save_data")
+            res = _try(lambda: save_data(ds, w["t"]))
             flags.append(res[0] == "ok")
             wellformed = -T <= w["t"] < T and not w["bad_shape"] and w["dtype"] == case["dtype"]
             if wellformed and res[0] != "ok":
@@ -1009,7 +1010,8 @@ def run_series(case, f0, tmp, obs, fail):
     with h5py.File(path, "r") as h:
         obs["series_array"] = darr_json(h["field/array"][()])
         for k in reads:
-            res = _try(lambda: df.Field._h5_load_field(h["field"], k))
+            load_field = core.private(df.Field, "_h5_load_field")
+            res = _try(lambda: load_field(h["field"], k))
             if res[0] != "ok":
                 loads.append(None)
                 if 0 <= k < T:
